@@ -5,6 +5,8 @@ Import ListNotations.
 From V Require Import Model.Align Model.SnapOps Model.Unmanaged Proofs.UnmanagedProofs.
 From V Require Import Model.TreeAssign Proofs.TreeAssignProofs.
 From V Require Import Model.CallAssign Proofs.CallAssignProofs.
+From V Require Import Model.DictAssign Proofs.DictAssignProofs.
+Close Scope Z_scope.
 
 Theorem C10_unmanaged_never_generated :
   forall (F : flags) (old : list uleaf) (new : list Z),
@@ -75,6 +77,18 @@ Theorem C10_call_unmanaged_kw_kept :
   In (k, t) (c_kws c) -> is_unm t = true -> find_field k fs <> None -> In (CKw k (RKeep t)) (call_result F c fs).
 Proof. exact call_unmanaged_kw_kept. Qed.
 
+(* dict displays: no code is generated for a user-controlled part of any value, none is duplicated or reordered *)
+Theorem C10_dict_unmanaged_subsequence :
+  forall (F : flags) (olds : list entry) (news : list (Z * val)),
+  subseq (dresult_unms (dict_result F olds news)) (dict_unms olds).
+Proof. exact dict_unmanaged_subsequence. Qed.
+
+(* ... and without fix none disappears *)
+Theorem C10_dict_unmanaged_kept_nofix :
+  forall (F : flags) (olds : list entry) (news : list (Z * val)),
+  f_fix F = false -> dresult_unms (dict_result F olds news) = dict_unms olds.
+Proof. exact dict_unmanaged_kept_nofix. Qed.
+
 Print Assumptions C10_unmanaged_never_generated.
 Print Assumptions C10_kept_unmanaged_subsequence.
 Print Assumptions C10_unmanaged_survive_without_fix.
@@ -87,3 +101,5 @@ Print Assumptions C10_assign_unmanaged_subsequence.
 Print Assumptions C10_assign_unmanaged_kept_nofix.
 Print Assumptions C10_call_unmanaged_subsequence.
 Print Assumptions C10_call_unmanaged_kw_kept.
+Print Assumptions C10_dict_unmanaged_subsequence.
+Print Assumptions C10_dict_unmanaged_kept_nofix.
